@@ -214,7 +214,9 @@ class Obj:
 
     _n = 0
 
-    def __init__(self, cls: str, fields: dict | None = None, args=(), kwargs=None, name: str | None = None):
+    def __init__(self, cls: str, fields: dict | None = None, args=(), kwargs=None, name: str | None = None,
+                 frozen: bool = False):
+        self.frozen = frozen
         self.cls = cls
         self.fields = dict(fields or {})
         self.args = tuple(args)
@@ -226,14 +228,39 @@ class Obj:
     def __repr__(self):
         if self.named:
             return f"`{self.name}`"
+        if self.frozen and self.fields:
+            return f"{self.cls.rsplit('.', 1)[-1]}(" + ", ".join(f"{k}={vkey(v)}" for k, v in self.fields.items()) + ")"
         a = ", ".join([vkey(x) for x in self.args] + [f"{k}={vkey(v)}" for k, v in self.kwargs.items()])
         return f"{self.cls.rsplit('.', 1)[-1]}({a})"
 
+    def skey(self):
+        return (self.cls, tuple(sorted((k, vkey(v)) for k, v in self.fields.items())))
+
     def __hash__(self):
+        if self.frozen:
+            return hash(self.skey())
         return id(self)
 
     def __eq__(self, o):
-        return self is o
+        if self is o:
+            return True
+        if self.frozen and isinstance(o, Obj) and o.frozen:
+            return self.skey() == o.skey()
+        return False
+
+
+class ModelFn:
+    """A callable supplied by a rule as a model of an opaque function value."""
+
+    def __init__(self, name, fn):
+        self.name = name
+        self.fn = fn
+
+    def __repr__(self):
+        return f"<model {self.name}>"
+
+    def __deepcopy__(self, memo):
+        return self
 
 
 class Closure:
